@@ -164,6 +164,53 @@ def cfg_const(cfg, name):
     return m.group(1)
 
 
+# --------------------------------------------------------------------------- harness build / sharded run
+# (vlib.go_test_sharded split in two, so that the build overlaps with the TLC runs)
+
+def build_harness(c):
+    import hashlib, subprocess
+    ov = vlib.gen_overlay()
+    bindir = os.path.join(vlib.WORK, "gobin")
+    os.makedirs(bindir, exist_ok=True)
+    exe = os.path.join(bindir, "bps-%s-%d.test" % (hashlib.sha1(vlib.REPO.encode()).hexdigest()[:10], os.getpid()))
+    cmd = ["go", "test", "-c", "-tags", "verif", "-overlay", ov, "-vet=off", "-o", exe, PKG]
+    try:
+        r = subprocess.run(cmd, cwd=vlib.REPO, env=vlib.goenv(), capture_output=True, text=True, timeout=1800)
+    except subprocess.TimeoutExpired:
+        raise vlib.Infra("go test -c timed out: " + " ".join(cmd))
+    if r.returncode != 0 or not os.path.exists(exe):
+        raise vlib.Infra("harness does not build (%s):\n%s" % (PKG, (r.stdout + r.stderr)[-4000:]))
+    return exe
+
+
+def run_shards(exe, nshards, env_for, timeout=2400):
+    import concurrent.futures, shutil, subprocess
+    bindir = os.path.dirname(exe)
+
+    def one(i):
+        cwd = os.path.join(bindir, "bps-cwd-%d-%d" % (os.getpid(), i))
+        os.makedirs(cwd, exist_ok=True)
+        e = dict(env_for(i))
+        e["VERIF_SHARD"] = "%d/%d" % (i, nshards)
+        e.setdefault("TMPDIR", cwd)
+        try:
+            p = subprocess.run([exe, "-test.run", RUN, "-test.timeout", "%ds" % timeout, "-test.count", "1"],
+                               cwd=cwd, env=vlib.goenv(e), capture_output=True, text=True, timeout=timeout + 60)
+            return p.returncode, p.stdout + p.stderr
+        except subprocess.TimeoutExpired:
+            return 124, "timeout"
+        finally:
+            shutil.rmtree(cwd, ignore_errors=True)
+    try:
+        with concurrent.futures.ThreadPoolExecutor(max_workers=nshards) as ex:
+            return list(ex.map(one, range(nshards)))
+    finally:
+        try:
+            os.remove(exe)
+        except OSError:
+            pass
+
+
 # --------------------------------------------------------------------------- the check
 
 def run_bpsnap(c):
@@ -190,7 +237,8 @@ def run_bpsnap(c):
 
     mc = "MC_BpSnapshots_big.cfg" if thorough else "MC_BpSnapshots.cfg"
     bg("mc", lambda: vlib.tlc(SPEC_DIR, "MC_BpSnapshots", mc, os.path.join(c.work, "bps_mc"), workers=6, timeout=2400))
-    bg("fix", lambda: vlib.tlc(SPEC_DIR, "MC_BpSnapshots", "MC_BpSnapshots_fix.cfg", os.path.join(c.work, "bps_fix"), workers=3, timeout=2400))
+    fixcfg = "MC_BpSnapshots_fix_big.cfg" if thorough else "MC_BpSnapshots_fix.cfg"
+    bg("fix", lambda: vlib.tlc(SPEC_DIR, "MC_BpSnapshots", fixcfg, os.path.join(c.work, "bps_fix"), workers=4, timeout=2400))
     bg("cnt", lambda: vlib.tlc(SPEC_DIR, "MC_BpSnapshots", "MC_BpSnapshots_count.cfg", os.path.join(c.work, "bps_cnt"), workers=2, timeout=900))
     # simulated deep behaviours of the larger instance
     simcfg = "Sim_BpSnapshots.cfg"
@@ -203,18 +251,26 @@ def run_bpsnap(c):
                      args=["-simulate", "file=%s/t,num=%d" % (simdir, nsim), "-depth", str(dsim), "-seed", str(c.seed * 7919 + 11)])
         return r, (read_sim(simdir, "t") if r.ok else None)
     simth = bg("sim", sim)
+    gcfg = "Gen_BpSnapshots_big.cfg" if thorough else "Gen_BpSnapshots.cfg"
+    genth = bg("gen", lambda: vlib.tlc(SPEC_DIR, "MC_BpSnapshots", gcfg, os.path.join(c.work, "bps_gen"), workers=1, timeout=2400))
+    exe = None
     try:
-        gcfg = "Gen_BpSnapshots_big.cfg" if thorough else "Gen_BpSnapshots.cfg"
         t0 = time.time()
-        gen = vlib.tlc(SPEC_DIR, "MC_BpSnapshots", gcfg, os.path.join(c.work, "bps_gen"), workers=1, timeout=2400)
+        exe = build_harness(c)
+        c.notes.append("BpSnapshots: harness built in %.0fs" % (time.time() - t0))
+        genth.join()
+        if "gen_err" in box:
+            raise box["gen_err"]
+        gen = box["gen"]
         c.require_ok(gen, "BpSnapshots: every transition of the generation model (%s)" % gcfg)
+        t0 = time.time()
         trs = read_transitions(gen.out)
         if len(trs) != gen.generated - 1 or len(trs) < 1000:
             raise vlib.Infra("generation incomplete: %d transitions logged, %d states generated" % (len(trs), gen.generated))
         gp = int(cfg_const(gcfg, "P"))
         grank = RANK[cfg_const(gcfg, "Rankings")]
         gbehs, nst, ned = gen_behaviours(trs, rng, "g")
-        c.notes.append("BpSnapshots gen: %d states, %d transitions -> %d behaviours (%.0fs)" % (nst, ned, len(gbehs), time.time() - t0))
+        c.notes.append("BpSnapshots gen: %d states, %d transitions -> %d behaviours (TLC %.0fs, edge cover %.0fs)" % (nst, ned, len(gbehs), gen.wall, time.time() - t0))
 
         simth.join()
         if "sim_err" in box:
@@ -234,8 +290,7 @@ def run_bpsnap(c):
         json.dump({"groups": groups}, open(inpath, "w"))
         t0 = time.time()
         outs = [os.path.join(c.work, "bps_out%d.json" % i) for i in range(nshards)]
-        rs = vlib.go_test_sharded(PKG, RUN, nshards, lambda i: {"VERIF_IN": inpath, "VERIF_OUT": outs[i], "VERIF_SEED": c.seed,
-                                                               "VERIF_TIER": c.tier}, timeout=2400)
+        rs = run_shards(exe, nshards, lambda i: {"VERIF_IN": inpath, "VERIF_OUT": outs[i], "VERIF_SEED": c.seed, "VERIF_TIER": c.tier})
         # one violation per signature over all shards: the one with the shortest list of actions
         best, results = {}, []
         for i, (rc, output) in enumerate(rs):
@@ -254,17 +309,19 @@ def run_bpsnap(c):
             r["violations"] = [v for _k, (_n, v) in sorted(best.items())] if i == 0 else []
             json.dump(r, open(outs[i], "w"))
             c.absorb_go(outs[i], "")
-        c.notes.append("BpSnapshots: %d + %d behaviours, %d steps replayed in %.0fs (%d processes, build included)" % (
+        c.notes.append("BpSnapshots: %d + %d behaviours, %d steps replayed in %.0fs (%d processes)" % (
             len(gbehs), len(sbehs), sum(len(b["steps"]) for b in gbehs + sbehs), time.time() - t0, nshards))
     finally:
         for t in th:
             t.join()
+        if exe and os.path.exists(exe):
+            os.remove(exe)
     for k in ("mc", "fix", "cnt"):
         if k + "_err" in box:
             raise box[k + "_err"]
     c.require_ok(box["mc"], "BpSnapshots design, BPCOUNT constant: list in force is a function of the chain, cache coherent, changes only at period "
                             "boundaries, gc keeps one period, size = min(BPCOUNT, candidates) (%s)" % mc)
-    c.require_ok(box["fix"], "BpSnapshots design, BPCOUNT variable, repaired rule (count read from the snapshot block's state): same properties (MC_BpSnapshots_fix.cfg)")
+    c.require_ok(box["fix"], "BpSnapshots design, BPCOUNT variable, repaired rule (count read from the snapshot block's state): same properties (%s)" % fixcfg)
     r = box["cnt"]
     c.add_tlc(r, "BpSnapshots design, BPCOUNT variable, the code's rule: expected counterexample to ListInForceIsFunctionOfChain (finding BPS-F1)")
     if r.violation != "ListInForceIsFunctionOfChain":
